@@ -136,10 +136,11 @@ def _delta_tabulate(ctx, m: core.Mod, cls: str, addq: str, subq: str, units: lis
         return (kw.get("years", 0), kw.get("months", 0), kw.get("weeks", 0) * 7 + kw.get("days", 0),
                 ((kw.get("hours", 0) * 60 + kw.get("minutes", 0)) * 60 + kw.get("seconds", 0)) * 10**6 + kw.get("microseconds", 0))
     try:
-        for kind in ("Interval", "Duration", "timedelta", "timedelta (negative, with a part of a day)"):
+        for kind in ("Interval", "Duration", "timedelta", "timedelta (negative, with a part of a day)", "timedelta (negative, with a part of a second)"):
             if kind.startswith("timedelta"):
-                # (standard library: date + timedelta shifts by timedelta.days, which rounds toward minus infinity)
-                native = _dt.timedelta(days=2, seconds=5, microseconds=7) if kind == "timedelta" else _dt.timedelta(days=-2, seconds=5)
+                # (standard library: date + timedelta shifts by timedelta.days, which rounds toward minus infinity; the seconds / microseconds fields of a
+                # negative timedelta belong to that floored form: -1.5 s is days=-1, seconds=86398, microseconds=500000)
+                native = _dt.timedelta(days=2, seconds=5, microseconds=7) if kind == "timedelta" else _dt.timedelta(days=-2, seconds=5) if "day" in kind else _dt.timedelta(seconds=-1, microseconds=-500000)
             seen = {}
             for q, verb in ((addq, "add"), (subq, "subtract")):
                 calls = []
@@ -183,8 +184,8 @@ def _delta_tabulate(ctx, m: core.Mod, cls: str, addq: str, subq: str, units: lis
            "add() / subtract() receive the operand's own components (Interval, Duration) or its elapsed length (native timedelta), the same for + and -"),
            m.loc(m.func(f"{cls}.{subq}")))
     if not bad:
-        ctx.established(("SIBLING",), f"{cls}.{addq}", "DELTA.tabulated")
-        ctx.established(("SIBLING",), f"{cls}.{subq}", "DELTA.tabulated")
+        ctx.established(("SIBLING", "TDARM"), f"{cls}.{addq}", "DELTA.tabulated")
+        ctx.established(("SIBLING", "TDARM"), f"{cls}.{subq}", "DELTA.tabulated")
     return not bad
 
 
